@@ -361,6 +361,19 @@ def run_names(spec):
         res["list_mementos"] = _safe(lambda: [x.invocation_metadata.fn_reference_with_args.fn_reference.qualified_name for x in fn.list_mementos()])
         res["list_functions"] = _safe(lambda: sorted(r.qualified_name for r in m.list_memoized_functions(spec.get("cluster"))))
         res["parse"] = _safe(lambda: m.FunctionReference.parse_qualified_name(fn.fn_reference().qualified_name))
+
+        def external_view():
+            # stored functions whose version no longer exists in this process are handed out as external references:
+            # the stub behind such a reference, and every modifier clone of it, must still name the stored version
+            view = []
+            for r in m.list_memoized_functions(spec.get("cluster")):
+                if r.external:
+                    stub = r.memento_fn
+                    clone = stub.force_local()
+                    view.append({"qn": r.qualified_name, "stub_version": stub.version(), "clone_qn": clone.fn_reference().qualified_name,
+                                 "via_stub": len(stub.list_mementos() or []), "via_clone": len(clone.list_mementos() or [])})
+            return view
+        res["external_refs"] = _safe(external_view)
         if spec.get("fnarg"):
             # a stored entry whose *arguments* contain a memento function that may later vanish
             fa = getattr(mods["a"], "fa")
